@@ -144,7 +144,7 @@ class C14(HttpProp):
             g = HttpGen(rng, rng.choice([1, 2, 3]))
             ops = []
             if k % 4 == 1:
-                ops.append(f"cfg {rng.choice([1, 2, 3])} {rng.choice([2, 3, 4])}")
+                ops.append(f"cfg {rng.choice([0, 1, 2, 3])} {rng.choice([0, 2, 3, 4])}")
             handover = k % 5 == 2        # several server instances on one store, used in turn
             for _ in range(rng.randint(8, length)):
                 if handover and rng.random() < 0.5:
@@ -588,7 +588,8 @@ class C20(HttpProp):
                    "http@0 POST av hyph=nil hyph=1 history b:1", "http@0 POST av hyph=latest:1 hyph=1 history b:2", f"stall {[20, 40, 70][k % 3]}",
                    "http@0 POST av hyph=latest:1 hyph=1 history b:3", "http@0 GET gcv hyph=anc:1:1 hyph=1 absent e", "http@0 POST as hyph=latest:1 hyph=1 snapshot b:9",
                    "http@0 GET snap - hyph=1 absent e", "http@0 POST av hyph=nil hyph=1 history b:4", "http@0 POST av hyph=nil hyph=2 history chunks:3,4",
-                   "http@0 GET unknown1 - absent absent e", "unstall", "http@0 POST av hyph=latest:1 hyph=1 history b:5", "http@0 GET gcv hyph=nil hyph=2 absent e", "kill"]
+                   "http@0 GET unknown1 - absent absent e", "http@0 OPTIONS star - absent absent e", "http@0 DELETE star - hyph=1 absent e", "http@0 GET dslash - absent absent e",
+                   "unstall", "http@0 POST av hyph=latest:1 hyph=1 history b:5", "http@0 GET gcv hyph=nil hyph=2 absent e", "kill"]
             out.append(Case(f"c20-load-{k}", ops, {"only": "sqlite", "bin": True}, mode="bin"))
         # the real executable with every option it advertises beyond those the model knows set: switches on, numbers to 1,
         # path prefixes to /tss (by flag, by variable; a guess the executable refuses is dropped) — EVERY response, whatever
@@ -597,6 +598,7 @@ class C20(HttpProp):
             ops = [f"boot listen=flag:1 dir=flag allow={'none' if k % 2 == 0 else 'flag:1'} versions=default days=default extra=autoval:{'flag' if k % 2 == 0 else 'env'}",
                    "http@0 POST av hyph=nil hyph=1 history b:1", "http@0 POST av hyph=latest:1 hyph=1 history b:2", "http@0 GET gcv hyph=anc:1:1 hyph=1 absent e",
                    "http@0 POST as hyph=latest:1 hyph=1 snapshot b:9", "http@0 GET snap - hyph=1 absent e", "http@0 GET index - absent absent e", "http@0 GET unknown1 - absent absent e",
+                   "http@0 OPTIONS star - absent absent e", "http@0 GET star - hyph=1 absent e", "http@0 POST dslash - hyph=1 absent e",
                    "http@0 POST unknown2 hyph=nil hyph=1 history b:1", "http@0 PUT gcv hyph=nil hyph=1 absent e", "http@0 GET snap - hyph=2 absent e", "http@0 POST av hyph=nil hyph=1 history b:3",
                    "http@0 POST av hyph=latest:1 hyph=1 history slow:2500:3,3", "http@0 POST as hyph=latest:1 hyph=1 snapshot slow:2500:2,2", "http@0 GET gcv short=nil hyph=1 absent e",
                    "http@0 POST av hyph=latest:1 hyph=1 other b:1", "http@0 POST av hyph=latest:1 hyph=1 history e", "kill"]
@@ -969,6 +971,23 @@ class C06(HttpProp):
                     f"http POST as hyph=latest:1 hyph=1 snapshot {body} xh={xh}", "http GET snap - hyph=1 absent e"]
         ops += ["reopen", "walk 1", "http GET snap - hyph=1 absent e"]
         out.append(Case("c06-content-encoding", ops, mode="http"))
+        # a second upload on the parent of the latest version: the same bytes again (a retransmission, or another replica),
+        # bytes of the same length that share their first 13 / 16 / 32 bytes, bytes that differ in the last byte only — refused,
+        # and what the child request returns stays the first upload
+        for k in range(sizes(tier, 6, 24)):
+            n = [20, 14, 40, 64, 300, 33][k % 6]
+            first = [(7 * i + k) % 256 for i in range(n)]
+            second = list(first)
+            if k % 3 == 1:
+                second[-1] = (second[-1] + 1) % 256
+            elif k % 3 == 2:
+                for i in range([13, 16, 32][k // 3 % 3], n):
+                    second[i] = (second[i] + 101) % 256
+            b1, b2 = "b:" + ",".join(map(str, first)), "b:" + ",".join(map(str, second))
+            ops = ["http POST av hyph=nil hyph=1 history b:1", f"http POST av hyph=latest:1 hyph=1 history {b1}", "http GET gcv hyph=anc:1:1 hyph=1 absent e",
+                   f"http POST av hyph=anc:1:1 hyph=1 history {b2}", "http GET gcv hyph=anc:1:1 hyph=1 absent e", "http GET gcv hyph=latest:1 hyph=1 absent e",
+                   f"http POST av hyph=latest:1 hyph=1 history {b2}", "http GET gcv hyph=anc:1:1 hyph=1 absent e", "http GET gcv hyph=anc:1:2 hyph=1 absent e", "walk 1"]
+            out.append(Case(f"c06-again-{k}", ops, mode="http"))
         # a second upload for the version that already holds the snapshot (another replica answering the same
         # request: other bytes): what get-snapshot returns stays the bytes of the upload that created it
         for k in range(sizes(tier, 4, 16)):
